@@ -203,6 +203,17 @@ structure Pop where
   membersPosition : List Int := []
 deriving DecidableEq, Repr
 
+/-- the lazy `GroupPopulation.members_position` property, used only while no position has been
+    assigned: the rank of each person among the members of its group, in order of appearance.
+    Positions are a settable component of the entity structure (a survey's own ranking need not
+    list the reference person first): `Pop.membersPosition` is *not* defined by this function,
+    and neither `dump` nor `restore` calls it. -/
+def defaultPositionsFrom (seen : List Int) : List Int → List Int
+  | [] => []
+  | g :: r => (seen.count g : Int) :: defaultPositionsFrom (g :: seen) r
+
+def defaultPositions (mei : List Int) : List Int := defaultPositionsFrom [] mei
+
 abbrev Store := List (Period × Vec)
 
 /-- a holder: its variable, the memory store, the disk store when the simulation has a
